@@ -26,6 +26,7 @@ type verifLife struct {
 	// an arrival in progress: the read loop's getConn stopped before it counts the new connection
 	arrName string
 	arrAddr *net.UDPAddr
+	arrHeld bool  // the arrival is past connLock.Lock() (it holds the lock); false while it waits at the lock's yield point
 	lastNew *Conn // the connection the last arrival created, if any
 }
 
@@ -43,6 +44,18 @@ func (v *verifLife) receiver() int {
 	return -1
 }
 
+// lockConns takes connLock unless somebody keeps it (a Close that waits while holding it would otherwise
+// hang the harness itself); it reports whether the lock was obtained.
+func (v *verifLife) lockConns() bool {
+	for i := 0; i < 300; i++ {
+		if v.ln.connLock.TryLock() {
+			return true
+		}
+		time.Sleep(time.Millisecond)
+	}
+	return false
+}
+
 func (v *verifLife) newRemote() *net.UDPAddr {
 	v.remote++
 	return &net.UDPAddr{IP: net.IPv4(127, 0, 1, byte(v.remote)), Port: 41000 + v.remote}
@@ -58,10 +71,23 @@ func (v *verifLife) arrive() {
 
 // arriveBegin runs the dispatch of a new remote's first datagram as a managed goroutine up to the
 // point where getConn is about to count the connection (it holds connLock there).
-func (v *verifLife) arriveBegin() {
+// arriveAtLock starts the dispatch of a new remote's first datagram and stops it where getConn is about to
+// take connLock: nothing has been checked yet in the code as it stands.
+func (v *verifLife) arriveAtLock() {
 	rm := v.newRemote()
 	v.arrAddr = rm
+	v.arrHeld = false
 	v.arrName = cosched.Go("r", func() { v.ln.dispatchMsg(rm, []byte{1}) })
+	cosched.Step(v.arrName, 2*time.Second)
+}
+
+func (v *verifLife) arriveBegin() {
+	if v.arrName == "" {
+		rm := v.newRemote()
+		v.arrAddr = rm
+		v.arrName = cosched.Go("r", func() { v.ln.dispatchMsg(rm, []byte{1}) })
+	}
+	v.arrHeld = true
 	for i := 0; i < 4; i++ {
 		st := ""
 		for _, p := range cosched.Positions() {
@@ -90,14 +116,16 @@ func (v *verifLife) arriveEnd() {
 		cosched.Step(v.arrName, 2*time.Second)
 	}
 	v.noteConn(v.arrAddr)
-	v.arrName, v.arrAddr = "", nil
+	v.arrName, v.arrAddr, v.arrHeld = "", nil, false
 }
 
 func (v *verifLife) noteConn(rm *net.UDPAddr) {
 	v.lastNew = nil
-	v.ln.connLock.Lock()
+	locked := v.lockConns()
 	c, ok := v.ln.conns[rm.String()]
-	v.ln.connLock.Unlock()
+	if locked {
+		v.ln.connLock.Unlock()
+	}
 	if ok {
 		if _, seen := v.ids[c]; !seen {
 			v.ids[c] = len(v.ids)
@@ -201,11 +229,12 @@ func (v *verifLife) line() string {
 	if v.sockClosed() {
 		k = "1"
 	}
-	if v.arrName == "" {
-		v.ln.connLock.Lock()
+	locked := false
+	if !v.arrHeld {
+		locked = v.lockConns()
 	}
 	n := len(v.ln.conns)
-	if v.arrName == "" {
+	if locked {
 		v.ln.connLock.Unlock()
 	}
 	return fmt.Sprintf("k=%s q=%d n=%d %s", k, len(v.ln.acceptCh), n, strings.Join(pcs, ","))
@@ -282,7 +311,9 @@ func verifLifeRun(o *vh.Out, id string, cfg []string, sched []string, r *vh.Rng)
 		ay := cosched.AtYield()
 		var op string
 		if sched != nil {
-			if step >= len(sched) && v.arrName != "" {
+			if step >= len(sched) && v.arrName != "" && !v.arrHeld {
+				op = "arb"
+			} else if step >= len(sched) && v.arrName != "" {
 				op = "are"
 			} else if step >= len(sched) {
 				if len(ay) == 0 {
@@ -310,18 +341,20 @@ func verifLifeRun(o *vh.Out, id string, cfg []string, sched []string, r *vh.Rng)
 			var cand []int
 			for _, nm := range ay {
 				for i, x := range v.names {
-					if x == nm && !(v.arrName != "" && v.pcOf(i) == "L") && v.canStart(i) {
+					if x == nm && !(v.arrHeld && v.pcOf(i) == "L") && v.canStart(i) {
 						cand = append(cand, i)
 					}
 				}
 			}
 			switch {
-			case v.arrName != "" && (len(cand) == 0 || r.Chance(40)):
+			case v.arrName != "" && !v.arrHeld && (len(cand) == 0 || r.Chance(30)):
+				op = "arb"
+			case v.arrHeld && (len(cand) == 0 || r.Chance(40)):
 				op = "are"
 			case len(cand) == 0:
 				op = ""
 			case v.arrName == "" && r.Chance(8):
-				op = []string{"arr", "arb", "arb"}[r.Intn(3)]
+				op = []string{"arr", "arb", "arb", "ar0", "ar0"}[r.Intn(5)]
 			default:
 				op = fmt.Sprintf("g %d", cand[r.Intn(len(cand))])
 			}
@@ -339,12 +372,16 @@ func verifLifeRun(o *vh.Out, id string, cfg []string, sched []string, r *vh.Rng)
 					op = fmt.Sprintf("arr %d", t)
 				}
 			}
-		case "arb":
+		case "ar0":
 			if v.arrName == "" {
+				v.arriveAtLock()
+			}
+		case "arb":
+			if !v.arrHeld {
 				v.arriveBegin()
 			}
 		case "are":
-			if v.arrName != "" {
+			if v.arrHeld {
 				v.arriveEnd()
 				cosched.Quiesce(2 * time.Second)
 				if t := v.receiver(); t >= 0 && len(f) == 1 {
@@ -453,7 +490,7 @@ func TestVerifLife(t *testing.T) {
 		for _, c := range cs {
 			var sched []string
 			for _, f := range c.Ops {
-				if f[0] == "g" || f[0] == "arr" || f[0] == "arb" || f[0] == "are" {
+				if f[0] == "g" || f[0] == "arr" || f[0] == "arb" || f[0] == "are" || f[0] == "ar0" {
 					sched = append(sched, strings.Join(f, " "))
 				}
 			}
